@@ -36,6 +36,9 @@ struct ThreadDriver : vrt::Driver {
   std::shared_ptr<size_t> strong[32];
   std::optional<EpochGuard> guard[kMaxT];
   const std::vector<size_t> *list[kMaxT] = {};
+  int pin[kMaxT] = {};                      // whose slot the guard variable of thread t refers to (0 = none)
+  std::optional<EpochGuard> mailbox[8];     // guards handed from one thread to another
+  int mpin[8] = {};
   int barrier_count[8] = {};
   int turn = 0;
   bool want_mgr = false;
@@ -172,6 +175,7 @@ struct ThreadDriver : vrt::Driver {
       vrt::NoteWrite();
     } else if (k == "G" || k == "GL") {
       vrt::Log("{\"e\":\"gcall\",\"t\":%d}", t);
+      pin[t] = t;
       if (k == "G") {
         guard[t].emplace(mgr->CreateEpochGuard());
         list[t] = nullptr;
@@ -205,20 +209,50 @@ struct ThreadDriver : vrt::Driver {
         EpochGuard tmp{std::move(*guard[t])};
         vrt::YieldPoint();
         *guard[t] = std::move(tmp);
-        vrt::Log("{\"e\":\"gmove\",\"t\":%d,\"ep\":%ld}", t, static_cast<long>(guard[t]->GetProtectedEpoch()));
+        vrt::Log("{\"e\":\"gmove\",\"t\":%d,\"ep\":%ld}", pin[t] ? pin[t] : t, static_cast<long>(guard[t]->GetProtectedEpoch()));
       }
     } else if (k == "GR") {
       // release idiom: overwrite the live guard by move assignment from an empty one
-      vrt::Log("{\"e\":\"dcall\",\"t\":%d}", t);
+      vrt::Log("{\"e\":\"dcall\",\"t\":%d}", pin[t]);
       *guard[t] = EpochGuard{};
       list[t] = nullptr;
-      vrt::Log("{\"e\":\"dret\",\"t\":%d}", t);
+      vrt::Log("{\"e\":\"dret\",\"t\":%d}", pin[t]);
+      pin[t] = 0;
       guard[t].reset();
     } else if (k == "D") {
-      vrt::Log("{\"e\":\"dcall\",\"t\":%d}", t);
+      vrt::Log("{\"e\":\"dcall\",\"t\":%d}", pin[t] ? pin[t] : t);
       guard[t].reset();
       list[t] = nullptr;
-      vrt::Log("{\"e\":\"dret\",\"t\":%d}", t);
+      vrt::Log("{\"e\":\"dret\",\"t\":%d}", pin[t] ? pin[t] : t);
+      pin[t] = 0;
+    } else if (k == "GIVE") {
+      // hand the guard object to another thread (the pin stays with the slot of the thread that created it)
+      int b = atoi(op.f[1].c_str());
+      vrt::Log("{\"e\":\"give\",\"t\":%d,\"k\":%d}", t, b);
+      if (guard[t].has_value()) {
+        mailbox[b].emplace(std::move(*guard[t]));
+        guard[t].reset();
+      }
+      mpin[b] = pin[t];
+      pin[t] = 0;
+      list[t] = nullptr;
+      vrt::NoteWrite();
+    } else if (k == "TAKE") {
+      // move-assign the handed-over guard onto the own guard variable: a live guard that is overwritten stops pinning
+      int b = atoi(op.f[1].c_str());
+      vrt::BlockUntil([&] { return mailbox[b].has_value(); });
+      vrt::Log("{\"e\":\"give\",\"t\":%d,\"k\":%d}", t, b);
+      if (guard[t].has_value()) {
+        if (pin[t]) vrt::Log("{\"e\":\"dcall\",\"t\":%d}", pin[t]);
+        *guard[t] = std::move(*mailbox[b]);
+        if (pin[t]) vrt::Log("{\"e\":\"dret\",\"t\":%d}", pin[t]);
+      } else {
+        guard[t].emplace(std::move(*mailbox[b]));
+      }
+      mailbox[b].reset();
+      pin[t] = mpin[b];
+      list[t] = nullptr;
+      vrt::NoteWrite();
     } else if (k == "F" || k == "FQ") {
       int n = k == "FQ" ? atoi(op.f[1].c_str()) : 1;
       if (k == "FQ") vrt::SetNoBranch(true);
